@@ -26,6 +26,8 @@ import (
 	hp "container/heap"
 	"sync"
 	"sync/atomic"
+
+	"github.com/tochemey/goakt/v4/internal/verifhook"
 )
 
 // PriorityFunc defines the priority function that will help
@@ -102,6 +104,7 @@ func (q *UnboundedPriorityMailBox) Enqueue(msg *ReceiveContext) error {
 	q.lock.Lock()
 	hp.Push(q.heap, msg)
 	q.lock.Unlock()
+	verifhook.At("uprio.enq.count", q, 0, 0)
 	atomic.AddInt64(&q.length, 1)
 	return nil
 }
